@@ -30,6 +30,9 @@ pub struct FaultCase {
 	/// Retry-After value sent with authorization and order objects
 	#[serde(default)]
 	pub retry_after: Option<String>,
+	/// the CA hands the challenges out as already `processing` (validation left in flight by an earlier attempt)
+	#[serde(default)]
+	pub processing: bool,
 }
 
 pub struct Attempt {
@@ -80,6 +83,12 @@ pub fn actions_for(pos: &Pos) -> Vec<(Action, usize)> {
 		v.push((Action::Acme(t.to_string()), 1));
 	}
 	v.push((Action::AcmeUnknownType, 1));
+	if matches!(pos, Pos::NewOrder | Pos::Finalize | Pos::Chall(0)) {
+		// long error texts with multi-byte characters at every alignment
+		for shift in 0..4 {
+			v.push((Action::AcmeLongDetail("rejectedIdentifier".into(), shift), 1));
+		}
+	}
 	v.push((Action::AcmeNoType, 1));
 	for c in [400u16, 404, 500, 503] {
 		v.push((Action::NonJson(c), 1));
@@ -130,7 +139,10 @@ pub fn actions_for(pos: &Pos) -> Vec<(Action, usize)> {
 			v.push((Action::Status("processing".into()), 30));
 			v.push((Action::ValidWithoutCertificate, 1));
 		}
-		Pos::Cert => v.push((Action::NonPemBody, 1)),
+		Pos::Cert => {
+			v.push((Action::NonPemBody, 1));
+			v.push((Action::DamagedChain, 1));
+		}
 		Pos::NewOrder => v.push((Action::ForgetAccount, 1)),
 		_ => {}
 	}
@@ -177,7 +189,7 @@ fn run_case_in(case: &FaultCase, acmed: &std::path::Path, dir: &std::path::Path,
 	let lay = Layout::new(dir);
 	let coll = HookCollector::start(dir)?;
 	let ids: Vec<(String, String)> = IDS.iter().map(|(n, _)| ("dns".to_string(), n.to_string())).collect();
-	let plan = CaPlan { faults: case.faults.clone(), not_after_s: 86400, nonce_on_get: case.nonce_on_get, retry_after: case.retry_after.clone(), ..CaPlan::default() };
+	let plan = CaPlan { faults: case.faults.clone(), not_after_s: 86400, nonce_on_get: case.nonce_on_get, retry_after: case.retry_after.clone(), chall_processing: if case.processing { IDS.iter().map(|(n, _)| n.to_string()).collect() } else { vec![] }, ..CaPlan::default() };
 	let ca = MockCa::start(plan, vec![(bb::ident_key(&ids), "c1".to_string())])?;
 	let crt_path = lay.certs.join("c1_ecdsa-p256.crt.pem");
 	let key_path = lay.certs.join("c1_ecdsa-p256.pk.pem");
